@@ -117,7 +117,7 @@ Proof.
     (destruct (get_param t (Z.of_nat h)) as [[m q]|] eqn:G; auto);
     destruct (get_param_some _ _ _ _ G) as (Sm & _ & Em & _); rewrite Nat2Z.id in Em; subst m;
     rewrite Sl in Sm; inv Sm;
-    (destruct (vn_ranged v && negb (range_ok (frange (S (length (pt_slots t))) t h) (vn_f0 v) (vn_fmax v)))%bool; auto);
+    (destruct (vn_ranged v && negb (range_ok (frange_c (S (length (pt_slots t))) t h) (vn_f0 v) (vn_fmax v)))%bool; auto);
     destruct (p_kind q); simpl in O; auto; try discriminate.
   inv O. apply IH; lia.
 Qed.
@@ -132,7 +132,7 @@ Proof.
     (destruct (get_param t (Z.of_nat h)) as [[m q]|] eqn:G; auto);
     destruct (get_param_some _ _ _ _ G) as (Sm & _ & Em & _); rewrite Nat2Z.id in Em; subst m;
     rewrite Sl in Sm; inv Sm;
-    (destruct (vn_ranged v && negb (range_ok (frange (S (length (pt_slots t))) t h) (vn_f0 v) (vn_fmax v)))%bool; auto);
+    (destruct (vn_ranged v && negb (range_ok (frange_c (S (length (pt_slots t))) t h) (vn_f0 v) (vn_fmax v)))%bool; auto);
     destruct (p_kind q); simpl in O; auto; try discriminate.
   inv O. rewrite (IH f1 f2) by lia. auto.
 Qed.
@@ -233,13 +233,13 @@ Proof.
     apply acc_held; auto. }
   destruct (get_param t z) as [[n p]|] eqn:G; [|discriminate].
   destruct (get_param_some _ _ _ _ G) as (Sn & Dn & En & Hz). subst n.
-  destruct (vn_ranged v && negb (range_ok (frange (S (length (pt_slots t))) t (Z.to_nat z)) (vn_f0 v) (vn_fmax v)))%bool
+  destruct (vn_ranged v && negb (range_ok (frange_c (S (length (pt_slots t))) t (Z.to_nat z)) (vn_f0 v) (vn_fmax v)))%bool
     eqn:Rg; [discriminate|].
   apply acc_visible with p; auto.
   - apply andb_false_iff in Rg. destruct Rg as [Rg|Rg]; [left; auto|right].
     apply negb_false_iff in Rg.
-    destruct (walk_total_table _ _ R A _ _ Sn) as (e & _ & _ & E3 & E4). exists e. split; auto. congruence.
-  - intros o sv K. rewrite K in H. apply IH. auto.
+    destruct (walk_total_table _ _ R A _ _ Sn) as (e & _ & _ & E3 & E4). exists e. split; auto. unfold frange_c in Rg. rewrite E4 in Rg. exact Rg.
+  - intros o sf sv K. rewrite K in H. apply IH. auto.
 Qed.
 
 (* ... and everything it allows (with the fuel of the model, or more) *)
@@ -256,14 +256,14 @@ Proof.
     { unfold get_param. destruct (Z.ltb_spec h 0); try lia. rewrite Sl, D. auto. }
     rewrite G.
     destruct (walk_total_table _ _ R A _ _ Sl) as (e & _ & _ & E3 & E4).
-    assert (Rg' : (vn_ranged v && negb (range_ok (frange (S (length (pt_slots t))) t (Z.to_nat h)) (vn_f0 v) (vn_fmax v)))%bool = false).
+    assert (Rg' : (vn_ranged v && negb (range_ok (frange_c (S (length (pt_slots t))) t (Z.to_nat h)) (vn_f0 v) (vn_fmax v)))%bool = false).
     { destruct Rg as [Rg|(e' & Ee & Rg)].
       - rewrite Rg. auto.
-      - rewrite E4, (ends_at_unique _ _ _ E3 _ Ee), Rg. apply andb_false_r. }
+      - unfold frange_c. rewrite E4, (ends_at_unique _ _ _ E3 _ Ee), Rg. apply andb_false_r. }
     rewrite Rg'.
-    destruct (p_kind p) as [g|fs gs|o sv|o sv] eqn:K; auto.
+    destruct (p_kind p) as [g|fs gs|o sv|o sf sv] eqn:K; auto.
     (* correlated: the rest of the chain is shorter than the table, so one unit of fuel less is enough *)
-    specialize (IH o sv eq_refl (S (length (pt_slots t))) (le_n _)).
+    specialize (IH o sf sv eq_refl (S (length (pt_slots t))) (le_n _)).
     destruct (chain_exists _ _ R A _ _ Sl) as (l & C).
     pose proof (chain_length _ A _ _ C) as Len.
     inversion C as [h1 p1 S1 O1 | h1 p1 o1 l1 S1 O1 C1]; subst; rewrite Sl in S1; inv S1; rewrite K in O1; simpl in O1;
@@ -342,6 +342,13 @@ Proof.
   destruct H as (K & _). rewrite K. destruct (p_kind p); auto.
 Qed.
 
+Lemma frange_c_HR : forall t t', HR t t' -> forall f n, frange_c f t' n = frange_c f t n.
+Proof.
+  intros t t' H f n. unfold frange_c. rewrite (frange_HR _ _ H). f_equal.
+  destruct H as (_ & H). specialize (H n). unfold sigma_at.
+  destruct (slot t n) as [p|], (slot t' n) as [q|]; try tauto. destruct H as (K & _). rewrite K. reflexivity.
+Qed.
+
 (* the two passes of _vnacal_new_add_common test the same things in the same order: what the
    validation pass accepts, the registration pass registers *)
 Lemma check_then_get : forall f t v h, vn_check_param f t v h = true ->
@@ -352,7 +359,7 @@ Proof.
   destruct ((0 <=? h)%Z && in_nat (Z.to_nat h) (vn_params v))%bool.
   { exists t, v. ssplit; auto. apply HR_refl. apply VR_refl. }
   destruct (get_param t h) as [[n p]|] eqn:G; [|discriminate].
-  destruct (vn_ranged v && negb (range_ok (frange (S (length (pt_slots t))) t n) (vn_f0 v) (vn_fmax v)))%bool;
+  destruct (vn_ranged v && negb (range_ok (frange_c (S (length (pt_slots t))) t n) (vn_f0 v) (vn_fmax v)))%bool;
     [discriminate|].
   assert (Reg : forall t1 v1 (b : bool), HR t t1 -> VR v v1 ->
             HR t (hold t1 n) /\
@@ -361,7 +368,7 @@ Proof.
   { intros t1 v1 b H1 (A1 & A2 & A3 & A4 & A5 & A6 & A7 & A8). split.
     - eapply HR_trans; [exact H1|apply HR_hold].
     - unfold VR. simpl. ssplit; auto. apply incl_appl. auto. }
-  destruct (p_kind p) as [g|fs gs|o sv|o sv] eqn:K.
+  destruct (p_kind p) as [g|fs gs|o sv|o sf sv] eqn:K.
   - eexists _, _. split; [reflexivity|]. apply (Reg t v false (HR_refl t) (VR_refl v)).
   - eexists _, _. split; [reflexivity|]. apply (Reg t v false (HR_refl t) (VR_refl v)).
   - eexists _, _. split; [reflexivity|]. apply (Reg t v true (HR_refl t) (VR_refl v)).
@@ -385,8 +392,8 @@ Proof.
   pose proof (Hs n) as Hn. rewrite Sn in Hn. destruct (slot t' n) as [q|] eqn:Sq; [|tauto]. destruct Hn as (Kq & Dq).
   assert (G' : get_param t' h = Some (n, q)).
   { unfold get_param. destruct (Z.ltb_spec h 0); try lia. rewrite <- En, Sq, Dq, Dn. auto. }
-  rewrite G'. rewrite Len, (frange_HR _ _ Ht). unfold vn_fmax, vn_ranged in *. rewrite V2, V3, V4.
-  destruct (vn_fvalid v && (0 <? vn_nf v) && negb (range_ok (frange (S (length (pt_slots t))) t n) (vn_f0 v)
+  rewrite G'. rewrite Len, (frange_c_HR _ _ Ht). unfold vn_fmax, vn_ranged in *. rewrite V2, V3, V4.
+  destruct (vn_fvalid v && (0 <? vn_nf v) && negb (range_ok (frange_c (S (length (pt_slots t))) t n) (vn_f0 v)
               (vn_f0 v + Z.of_nat (vn_nf v) - 1)))%bool; [discriminate|].
   rewrite Kq. destruct (p_kind p); auto.
 Qed.
@@ -458,10 +465,14 @@ Proof.
     rewrite X, Y. auto.
   - destruct (get_param (st_pt s) h) as [[n0 p]|]; [|simpl; auto].
     destruct (n <? 1)%Z; [simpl; auto|].
+    destruct (negb (1 <? n)%Z); [(match goal with |- context [finish_make ?a ?b ?c] => let X := fresh in let Y := fresh in destruct (finish_make_frame a b c) as (X & Y & _); rewrite X, Y; auto end)|].
+    destruct sf as [sfv|].
+    { destruct (negb (Z.of_nat (length sfv) =? n)%Z); [simpl; auto|].
+      destruct (existsb (fun f => (f <? 0)%Z) sfv || negb (ascending sfv))%bool; [simpl; auto|].
+      match goal with |- context [if ?b then (s, fail_usage) else _] => destruct b end; [simpl; auto|].
+      (match goal with |- context [finish_make ?a ?b ?c] => let X := fresh in let Y := fresh in destruct (finish_make_frame a b c) as (X & Y & _); rewrite X, Y; auto end). }
     match goal with |- context [if negb ?b then _ else _] => destruct b end; [|simpl; auto].
-    simpl negb. cbv iota.
-    match goal with |- context [finish_make ?a ?b ?c] => destruct (finish_make_frame a b c) as (X & Y & _) end.
-    rewrite X, Y. auto.
+    simpl negb. cbv iota. (match goal with |- context [finish_make ?a ?b ?c] => let X := fresh in let Y := fresh in destruct (finish_make_frame a b c) as (X & Y & _); rewrite X, Y; auto end).
   - destruct ((0 <=? h)%Z && (h <? 3)%Z)%bool; [simpl; auto|].
     destruct (get_param (st_pt s) h) as [[n p]|]; [|simpl; auto].
     destruct (delete_release (st_pt s) n p) as [t1 [|]]; simpl; auto.
@@ -674,7 +685,7 @@ Proof. intros ops. exact (proj1 (run_inv ops st_initial inv_initial)). Qed.
 (* a vector parameter (handle 3), an unknown parameter whose initial guess it is (4), a parameter
    correlated with that unknown (5), and a vnacal_new_t with three frequencies 1, 2, 3 *)
 Definition chain_script : list op :=
-  [OMakeVector [1; 2; 3]%Z [(5, 6); (7, 8); (9, 10)]%Z 0; OMakeUnknown 3 0; OMakeCorrelated 4 3 0;
+  [OMakeVector [1; 2; 3]%Z [(5, 6); (7, 8); (9, 10)]%Z 0; OMakeUnknown 3 0; OMakeCorrelated 4 3 None 0;
    ONewAlloc 0 0 1 3; OSetFreq 0 1].
 
 (* two calibrations c1 (index 0), c2 (index 1); the vnacal_new_t is solved again *)
@@ -709,10 +720,10 @@ Proof.
     eapply acc_visible; [lia|vm_compute; reflexivity|reflexivity| |].
     + right. eexists. split; [eapply ends_next; [vm_compute; reflexivity|vm_compute; reflexivity|exact E4]|].
       vm_compute. reflexivity.
-    + intros o sv K. vm_compute in K. inv K.
+    + intros o sf sv K. vm_compute in K. inv K.
       eapply acc_visible; [lia|vm_compute; reflexivity|reflexivity| |].
       * right. eexists. split; [exact E4|]. vm_compute. reflexivity.
-      * intros o sv K. vm_compute in K. discriminate.
+      * intros o sf sv K. vm_compute in K. discriminate.
   - vm_compute. intros [H|[]]. discriminate.
   - eexists. vm_compute. reflexivity.
 Qed.
